@@ -255,6 +255,35 @@ def check (cf : Conf) (now : Nat) (hashes : List Hash)
       (⟨.blocked matched, some q⟩, storeInCache now cf.ttl toReq (ord recv) c1)
 
 
+/-! ### constants of hashprefix.go (tied to the source by the fact line C19.consts) -/
+
+def prefixLen : Nat := 2       -- prefixLen
+def hashSize : Nat := 32       -- sha256.Size
+def hexSize : Nat := 64        -- hashSize * 2
+def subDomainNum : Nat := 4    -- const in hostnameToHashes
+def expirySize : Nat := 8      -- cache.go
+
+/-! ### the cache item on the wire of golibs/cache (fromCacheItem / toCacheItem) -/
+
+def be64 (n : Nat) : Nat → List Nat
+  | 0 => []
+  | k + 1 => (n / 256 ^ k) % 256 :: be64 n k
+
+def unbe64 : List Nat → Nat
+  | [] => 0
+  | b :: rest => b * 256 ^ rest.length + unbe64 rest
+
+def chunk32 : Nat → List Nat → List Hash
+  | 0, _ => []
+  | fuel + 1, l => if l.isEmpty then [] else l.take 32 :: chunk32 fuel (l.drop 32)
+
+/-- fromCacheItem: expiry (8 bytes BE, absolute Unix seconds), then the hashes -/
+def encodeItem (base : Nat) (it : Item) : List Nat := be64 (base + it.exp) 8 ++ it.hs.flatten
+
+/-- toCacheItem (data at least 8 bytes): the absolute expiry and the hashes -/
+def decodeItem (data : List Nat) : Nat × List Hash :=
+  (unbe64 (data.take 8), chunk32 data.length (data.drop 8))
+
 /-! ### filtering.DNSFilter.CheckHost in front of the two checkers
 
 `CheckHost` lower-cases the query name (dnsforward passes it as it came off
